@@ -36,8 +36,8 @@ def run(ctx):
             ctx.violation("rounding routine disagrees with TorusW on the embedded grid: row %s" % bad["row"], detail=bad, files=[g])
         e = os.path.join(ctx.dir, "edges-%s.ndjson" % kind)
         ms = [2, 3, 4, 5, 7, 8, 16, 1000, 1024, 2048, 4096, 32768] + POW2_BIG
-        rc, err = table.run_harness(ctx, exe, ["edges", "--M", ",".join(map(str, ms)), "--randM", 400 if thorough else 40,
-                                               "--per", 256 if thorough else 64, "--seed", ctx.seed], e)
+        rc, err = table.run_harness(ctx, exe, ["edges", "--M", ",".join(map(str, ms)), "--randM", 120 if thorough else 40,
+                                               "--per", 128 if thorough else 64, "--seed", ctx.seed], e)
         if rc != 0:
             ctx.violation("harness h_arith edges died rc=%s: %s" % (rc, err[-300:]), key="h_arith edges crash")
             continue
